@@ -723,6 +723,9 @@ func start1(o Opts) (*Stack, error) {
 	var tmpDirs []string
 	if o.Vary != 0 {
 		tmpDirs = applyVary(cfg, o.Vary)
+		if o.Profile == "" { // what a response carries does not depend on how eagerly the engine flushes it
+			cfg.Proxy.Profile = []string{"auto", "auto", "streaming", "standard"}[(o.Vary>>20)%4]
+		}
 	}
 	ok := false
 	defer func() {
